@@ -26,6 +26,7 @@ import itertools
 import json
 import os
 import re
+import sys
 import threading
 import time
 import traceback
@@ -51,12 +52,48 @@ MEM_DIR = "/tmp"          # an existing directory: buildLoad chdir()s to the dir
 # ----------------------------------------------------------------------------- robust watchdog
 #
 # core.watchdog arms a one-shot SIGALRM timer whose handler raises.  That is not enough for builds that
-# spin: ioflo's framer runners are generators, and when the garbage collector finalises the runners of an
-# earlier build the raised Watchdog can land inside such a finaliser, where Python swallows it ("Exception
-# ignored in generator ...") and the hung build is never interrupted; with a periodic timer the signal
-# machinery itself was observed (CPython 3.12, loaded machine) to stop delivering after a handler was
-# re-entered.  So: a monitor thread injects core.Watchdog into the main thread with
-# PyThreadState_SetAsyncExc and keeps re-injecting every 50 ms until the guarded block is left.
+# spin: ioflo's framer runners are generators, and when runners of an earlier build are finalised inside
+# the guarded region the raised Watchdog can land in such a finaliser, where Python swallows it
+# ("Exception ignored in generator ...") and the hung build is never interrupted; with a periodic timer
+# the signal machinery itself was observed (CPython 3.12, loaded machine) to stop delivering.
+# So: a monitor thread injects core.Watchdog into the main thread with PyThreadState_SetAsyncExc and
+# re-injects every 50 ms - but only while the guarded body is still on the main thread's stack, never
+# while the `with` statement is being left (an injection there would skip the disarming).
+
+class _Guard:
+    """Class based context manager (no generator: nothing of ours is suspended while the body runs)."""
+    __slots__ = ("seconds", "deadline", "gen")
+
+    def __init__(self, seconds):
+        self.seconds = seconds
+
+    def __enter__(self):
+        m = _monitor()
+        m.gen += 1
+        self.gen = m.gen
+        self.deadline = time.monotonic() + self.seconds
+        m.state = (m.gen, self.deadline, sys._getframe(1))
+        return self
+
+    def __exit__(self, typ, val, tb):
+        m = _MON[0]
+        while True:
+            try:
+                m.state = None
+                if time.monotonic() >= self.deadline - 0.1:
+                    # the monitor may be between its checks and the injection: wait until it has seen the
+                    # disarmed state once, so that no injection can arrive after we leave
+                    t = m.idle_ticks
+                    while m.idle_ticks == t and m.is_alive():
+                        time.sleep(0.002)
+                ctypes.pythonapi.PyThreadState_SetAsyncExc(ctypes.c_ulong(m.target), None)   # drop a pending one
+                return False
+            except core.Watchdog:
+                continue
+
+
+_LEAVING = (_Guard.__exit__.__code__, _Guard.__enter__.__code__)
+
 
 class _Monitor(threading.Thread):
     """Lock-free on purpose: the main thread only stores one attribute (atomic under the GIL), so an
@@ -64,12 +101,22 @@ class _Monitor(threading.Thread):
 
     def __init__(self):
         super().__init__(daemon=True, name="verif-watchdog")
-        self.state = None          # None (disarmed) or (generation, deadline)
+        self.state = None          # None (disarmed) or (generation, deadline, guarding frame)
         self.gen = 0
         self.idle_ticks = 0        # incremented whenever the monitor observes the disarmed state
-        self.log = collections.deque(maxlen=40)   # debugging: recent arm/disarm/inject events
         self.target = threading.main_thread().ident
         self.pid = os.getpid()
+
+    def body_running(self, guard):
+        """True when `guard` (the frame holding the with statement) is on the main thread's stack and is
+        executing a call that is not our own __enter__/__exit__."""
+        f = sys._current_frames().get(self.target)
+        child = None
+        while f is not None:
+            if f is guard:
+                return child is not None and child.f_code not in _LEAVING
+            child, f = f, f.f_back
+        return False
 
     def run(self):
         last_gen, next_fire = None, 0.0
@@ -83,11 +130,11 @@ class _Monitor(threading.Thread):
                 self.idle_ticks += 1
                 continue
             if st[0] != last_gen:
-                last_gen, next_fire = st
-            if time.monotonic() >= next_fire and self.state is st:
+                last_gen, next_fire = st[0], st[1]
+            if time.monotonic() >= next_fire and self.body_running(st[2]) and self.state is st:
                 inject(target, exc)
-                self.log.append(("inject", st[0], time.monotonic()))
                 next_fire = time.monotonic() + 0.05
+            st = None
 
 
 _MON = [None]
@@ -101,30 +148,8 @@ def _monitor():
     return m
 
 
-@contextlib.contextmanager
 def _watchdog(seconds):
-    m = _monitor()
-    m.gen += 1
-    deadline = time.monotonic() + seconds
-    m.state = (m.gen, deadline)
-    m.log.append(("arm", m.gen, deadline - seconds, seconds))
-    try:
-        yield
-    finally:
-        while True:
-            try:
-                m.state = None
-                if time.monotonic() >= deadline - 0.1:
-                    # the monitor may be between "still armed?" and the injection: wait until it has seen
-                    # the disarmed state once, so that no injection can arrive after we leave
-                    t = m.idle_ticks
-                    while m.idle_ticks == t and m.is_alive():
-                        time.sleep(0.002)
-                ctypes.pythonapi.PyThreadState_SetAsyncExc(ctypes.c_ulong(m.target), None)   # drop a pending one
-                m.log.append(("disarmed", m.gen, time.monotonic()))
-                break
-            except core.Watchdog:
-                continue
+    return _Guard(seconds)
 
 
 core.watchdog = _watchdog      # real.build_text / real.run look it up at call time
